@@ -24,6 +24,9 @@ def run(ctx):
         'spelling with homogeneous accidentals; Python str semantics are trusted.')
     ctx.not_decided = ['mixed accidental runs such as c#- (outside the quantified domain)']
     r1_effects(ctx)
+    r1_fresh_result(ctx)
+    from . import shared
+    shared.no_one_shot_state(ctx, 'R1', {N.PITCH})
     consts = r2_octave(ctx)
     r3_alphabets(ctx)
 
@@ -57,6 +60,23 @@ def r1_effects(ctx):
         gl = [e for e in s.effects.values() if e.root[0] in ('g', 'cls')]
         for e in gl:
             ctx.violation('R1', e.loc, f.qualname, f'global-write:{e.root[1]}', f'{e.func} {e.what}: writes shared state {e.root[1]}')
+
+
+def r1_fresh_result(ctx):
+    """Every import hands out a pitch object of its own: the value import_pitch returns is constructed by that call (an object
+    kept on the importer and updated in place would make every earlier result change with the next import)."""
+    ap = ctx.prog.cls(f'{N.PITCH}.AgnosticPitch')
+    for clsname in ('HumdrumPitchImporter', 'AmericanPitchImporter'):
+        cls_ = ctx.prog.cls(f'{N.PITCH}.{clsname}')
+        f = ctx.prog.find_method(cls_, 'import_pitch')
+        if f is None or f.is_abstract:
+            raise AnalysisError(f'anchor vanished: {clsname}.import_pitch')
+        rets = [(sp, v) for _, v, sp in symex.returns(f) if sp.end == 'return']
+        ok = bool(rets) and all(isinstance(v, ast.Call) and F.constructed_class(ctx, v, f) is ap for _, v in rets)
+        ctx.check(ok, 'R1', f.loc, f'{N.PITCH}.{clsname}.import_pitch', 'import-returns-fresh-pitch',
+                  f'{clsname}.import_pitch returns an AgnosticPitch constructed by the call',
+                  f'{clsname}.import_pitch returns `{[src(v)[:50] for _, v in rets][:2]}`: not a pitch constructed by this call - results of '
+                  f'earlier imports share the object and change with the next import')
 
 
 def _const(ctx, fi):
